@@ -496,6 +496,10 @@ func (g *Gen) apiPlmn() (int, int) {
 }
 
 func genUePolicyAPI(g *Gen, w *bufio.Writer, n int) {
+	// bodies in the upper half of the 16-bit length range (one part of 33 000 / 40 000 / 65 000 octets)
+	for _, big := range []int{32765, 33000, 40000, 65000} {
+		fmt.Fprintf(w, "upc apil 0:208:93:0/7/0.1.1.%s\n", hexs(g.Bytes(big)))
+	}
 	for i := 0; i < n; i++ {
 		var ss []string
 		// every other list draws its PLMNs from a pool around one PLMN: the same PLMN again, and PLMNs that differ from it in the
